@@ -65,6 +65,20 @@ Section Radix.
   Theorem digits_inj a b : digits a = digits b -> a = b.
   Proof. intros H. rewrite <- (value_digits a), <- (value_digits b), H. reflexivity. Qed.
 
+  Lemma digits_aux_all fuel : forall n acc,
+    Forall (fun c => exists d, d < base /\ c = digit d) acc ->
+    Forall (fun c => exists d, d < base /\ c = digit d) (digits_aux fuel n acc).
+  Proof.
+    pose proof base_nz as NZ.
+    induction fuel as [|f IH]; intros n acc H; cbn [digits_aux]; auto.
+    assert (F : Forall (fun c => exists d, d < base /\ c = digit d) (digit (n mod base) :: acc)).
+    { constructor; auto. exists (n mod base). split; auto. apply N.mod_lt; auto. }
+    destruct (N.eqb (n / base) 0); auto.
+  Qed.
+
+  Lemma digits_all n : Forall (fun c => exists d, d < base /\ c = digit d) (digits n).
+  Proof. apply digits_aux_all. constructor. Qed.
+
   Lemma digits_nonempty n : digits n <> [].
   Proof.
     unfold digits. cbn [digits_aux]. destruct (N.eqb (n / base) 0); [discriminate|].
